@@ -1,6 +1,7 @@
 import SodiumModel.Driver.Common
 import SodiumModel.Model.Hash
 import SodiumModel.Model.Poly1305Donna
+import SodiumModel.Model.Poly1305Donna32  -- donna32
 import SodiumModel.Model.Utils
 import SodiumModel.Spec.Sha256
 import SodiumModel.Spec.Sha512
@@ -30,6 +31,18 @@ def polyChunks (key : Bytes) (cs : List Bytes) : Bytes :=
 def polyChunksLimb (key : Bytes) (cs : List Bytes) : Bytes :=
   if cs.foldl (fun n c => n + c.length) 0 ≤ 1024 then Poly1305Donna.macChunks key cs
   else polyChunks key cs
+
+-- BEGIN donna32
+/-- cross-check of `onetimeauth` against the model of poly1305_donna32.h (the no-128-bit-integer
+    build, Model/Poly1305Donna32.lean), run with `unsigned long` = 64 bits (this host) AND = 32 bits
+    (the code's design assumption), same 1024-byte cap as the donna64 model; a difference prints
+    `MODEL-DISAGREE`.  Properties/C10Donna32.lean proves both equal `Spec.Poly1305.mac`. -/
+def polyDonna32Check (key : Bytes) (cs : List Bytes) (r : Bytes) : String :=
+  if cs.foldl (fun n c => n + c.length) 0 ≤ 1024 then
+    if Poly1305Donna32.macChunks key cs == r && Poly1305Donna32.macChunksILP32 key cs == r then toHex r
+    else "MODEL-DISAGREE"
+  else toHex r
+-- END donna32
 
 def b2ChunksWith (F : Blake2b.State → Bytes → Nat → Bool → Blake2b.State) (outlen : Nat)
     (key salt personal : Bytes) (cs : List Bytes) : String :=
@@ -88,7 +101,11 @@ def handle (op : String) (args : List String) : Option String :=
   | "shorthash", [alg, key, msg] => do
     let key ← ofHex key; let msg ← ofHex msg
     if alg = "24" then some (toHex (C04Ref.siphash24 key msg)) else some (toHex (C04Ref.siphashx24 key msg))
-  | "onetimeauth", key :: cs => do some (toHex (polyChunksLimb (← ofHex key) (← hexList cs)))
+  | "onetimeauth", key :: cs => do
+    let key ← ofHex key; let cs ← hexList cs
+    -- BEGIN donna32
+    some (polyDonna32Check key cs (polyChunksLimb key cs))
+    -- END donna32
   | "kdf.hkdf256.extract", salt :: cs => do some (toHex (hmacChunks H256 (← ofHex salt) (← hexList cs)))
   | "kdf.hkdf512.extract", salt :: cs => do some (toHex (hmacChunks H512 (← ofHex salt) (← hexList cs)))
   | "kdf.hkdf256.expand", [n, ctx, prk] => do some (hres (hkdfExpand H256 (← parseNat? n) (← ofHex ctx) (← ofHex prk)))
